@@ -617,7 +617,15 @@ impl<'a> Exec<'a> {
             }
             Op::Dealloc { sel } => {
                 let Some(i) = self.model.select(sel) else { return self.disable() };
-                self.do_dealloc(arena, h, i);
+                self.do_dealloc(arena, h, i, false);
+            }
+            Op::DeallocTyped { sel } => {
+                let Some(i) = self.model.select(sel) else { return self.disable() };
+                let b = self.model.blocks[i];
+                if !(b.align == 1 || (b.align == 8 && b.size % 8 == 0)) || b.size == 0 {
+                    return self.disable();
+                }
+                self.do_dealloc(arena, h, i, true);
             }
             Op::Split { sel } => {
                 let Some(i) = self.model.select(sel) else { return self.disable() };
@@ -958,7 +966,7 @@ impl<'a> Exec<'a> {
         if up { b.addr() + b.size == c.pos } else { b.addr() == c.pos }
     }
 
-    fn do_dealloc(&mut self, arena: &mut dyn DynArena, h: Handle, i: usize) {
+    fn do_dealloc(&mut self, arena: &mut dyn DynArena, h: Handle, i: usize, typed: bool) {
         let b = self.model.blocks[i];
         self.note_outer_touch(&b);
         arena.d_stats(&mut self.st2);
@@ -967,7 +975,11 @@ impl<'a> Exec<'a> {
         // "most recent allocation": returned by the immediately preceding call *and* still touching the bump position
         // (a shrink that was not allowed to reclaim returns the block without making it adjacent)
         let was_last_returned = self.model.last_returned == Some(b.id) && adjacent;
-        unsafe { Via::new(arena, h).deallocate(b.ptr, b.layout()) };
+        if typed {
+            unsafe { Via::new(arena, h).dealloc_typed(b.align == 8, b.ptr, if b.align == 8 { b.size / 8 } else { b.size }) };
+        } else {
+            unsafe { Via::new(arena, h).deallocate(b.ptr, b.layout()) };
+        }
         self.kill_at(i);
         self.model.last_returned = None;
         if self.on(grp::RECLAIM) {
